@@ -267,7 +267,7 @@ func cmdCheck(args []string) int {
 	for _, n := range names {
 		r := results[n]
 		if *verbose || len(r.Aborts) > 0 || len(r.EngineErrors) > 0 || len(r.Inconclusive) > 0 {
-			fmt.Printf("harness %s: paths=%d ended=%v aborts=%v inconclusive=%v feasUnknown=%d maxsteps=%d\n", n, r.Paths, r.Ended, r.Aborts, r.Inconclusive, r.FeasUnknown, r.MaxSteps)
+			fmt.Printf("harness %s: paths=%d ended=%v aborts=%v inconclusive=%v feasUnknown=%d maxsteps=%d reached=%v\n", n, r.Paths, r.Ended, r.Aborts, r.Inconclusive, r.FeasUnknown, r.MaxSteps, r.Reached)
 		}
 		for _, e := range r.EngineErrors {
 			fmt.Printf("  ENGINE ERROR: %s\n", e)
